@@ -14,7 +14,7 @@ def work(job):
     import refine
     prog, prop = job
     args = ["-O1"] + prog["args"]
-    r = refine.refine(prog["src"], args, timeout=40)
+    r = refine.refine(prog["src"], args, timeout=25)
     out = {"name": prog["name"], "status": r["status"], "detail": r.get("detail", ""), "word": r.get("word"),
            "nstates": r.get("nstates", 0), "loose": None, "O3": None}
     if r["status"] == "mismatch":
@@ -82,7 +82,10 @@ def run(pid, theorems, module, progs, rule, known_corpus=()):
                 ck.discharged += 1
             elif s == "mismatch":
                 st["mismatch"] += 1
-                if r["loose"] in ("closed", "closed-relaxed"):
+                if prog.get("known_key"):
+                    key = prog["known_key"]
+                    what = f"{r['name']}: {prog.get('known_what', 'listed finding')}; witness word {r['word']}"
+                elif r["loose"] in ("closed", "closed-relaxed"):
                     key = LOOSE_KEY
                     what = (f"{r['name']}: differs from the reference only in the scheduling of loose actions "
                             f"(assignments / deletes after a construct that can match nothing); witness word {r['word']}")
@@ -92,6 +95,12 @@ def run(pid, theorems, module, progs, rule, known_corpus=()):
                 ck.report(key, what, {"program": prog["src"], "args": prog["args"], "witness_word": r["word"],
                                       "checker": r["detail"], "without_loose_actions": r["loose"],
                                       "c_replay": replay_on_binary(prog, r["word"], wd)})
+            elif s in ("timeout", "fuel"):
+                # the model's exploration budget ran out: nothing decided for this program (a tool
+                # limit, reported in the evidence; too many of them fails the run as a tool error)
+                st["budget_exceeded"] = st.get("budget_exceeded", 0) + 1
+                ck.obligations -= 1
+                st["accepted"] -= 1
             else:
                 st["inconclusive"] += 1
                 ck.broken_obligation(f"certificate inconclusive ({s}) for {r['name']}", {"program": prog["src"], "detail": r["detail"][:300]})
@@ -99,5 +108,8 @@ def run(pid, theorems, module, progs, rule, known_corpus=()):
                 ck.samples.append({"program": r["name"], "result": r["detail"][:100]})
     finally:
         shutil.rmtree(wd, ignore_errors=True)
+    if st.get("budget_exceeded", 0) * 20 > max(1, st["accepted"]):
+        print(f"TOOL-ERROR: {st['budget_exceeded']} of {st['accepted']} programs exceeded the exploration budget")
+        sys.exit(2)
     ck.finish({"programs": st["accepted"], "disagreements_checked": st["accepted"],
                "evaluations": st["accepted"], "distinct_nontrivial": len(distinct), "rule": rule, "stats": st})
